@@ -368,7 +368,7 @@ def calls_stage(tier_, key):
 def cli_args(o, target):
     a = list(target)
     if o["protocol"] >= 0: a += ["--protocol", str(o["protocol"])]
-    if o["seed"] >= 0: a += ["--seed", str(o["seed"])]
+    a += ["--seed", str(real_seed(o))]
     a += ["--min-opcodes", str(o["min"]), "--max-opcodes", str(o["max"])]
     if o["muts"]: a += ["--mutators"] + list(o["muts"])
     a += ["--mutation-rate", "%.3f" % (o["rate1000"] / 1000.0)]
@@ -377,13 +377,19 @@ def cli_args(o, target):
     if o["buf"]: a.append("--allow-buffer")
     return a
 
+def seed_limbs(x):
+    return [(x >> (16 * i)) & 0xFFFF for i in range(4)]
+
+def real_seed(o):
+    return sum(l << (16 * i) for i, l in enumerate(o["seedl"]))
+
 def lib_cfg_of(o):
     """the driver's own reading of the options (validated against Frontend!CliConfig by TLC)"""
     muts = list(o["muts"])
     if "all" in muts:
         muts = ["bitflip", "boundary", "offbyone", "stringlen", "character", "typeconfusion"] + (["memoindex"] if o["unsafe"] else [])
     withm = bool(muts)
-    return {"P": o["protocol"] if o["protocol"] >= 0 else o["seed"] % 6, "seed": o["seed"], "min": o["min"], "max": o["max"], "muts": muts,
+    return {"P": o["protocol"] if o["protocol"] >= 0 else real_seed(o) % 6, "seed": o["seed"], "seedl": o["seedl"], "min": o["min"], "max": o["max"], "muts": muts,
             "rate1000": max(0, min(1000, o["rate1000"])) if withm else 100, "unsafe": o["unsafe"] if withm else 0,
             "mutUnsafe": o["unsafe"] if withm else 0, "ext": o["ext"], "buf": o["buf"]}
 
@@ -391,7 +397,7 @@ def harness_job(jid, lc, data=None):
     c = corpus.cfg(lc["P"], lc["min"], lc["max"], muts=lc.get("muts", []), rate=lc.get("rate1000", 100) / 1000.0,
                    unsafe=bool(lc.get("unsafe", 0)), mut_unsafe=bool(lc.get("mutUnsafe", 0)), ext=bool(lc.get("ext", 0)), buf=bool(lc.get("buf", 0)))
     if data is None:
-        return {"id": jid, "cfg": c, "mode": "seed", "seed": lc["seed"]}
+        return {"id": jid, "cfg": c, "mode": "seed", "seed": real_seed(lc) if "seedl" in lc else lc["seed"]}
     return {"id": jid, "cfg": c, "mode": "bytes", "seed": 0, "bytes": list(data)}
 
 def front_stage(tier_, key):
@@ -402,7 +408,8 @@ def front_stage(tier_, key):
         rng = random.Random(sub_seed("front", tier_))
         mut_choices = [[], ["all"], ["bitflip", "character"], ["memoindex", "offbyone"]] + [[m] for m in corpus.MUTS]
         def rand_opts(i):
-            return {"protocol": rng.choice([-1, -1, 0, 1, 2, 3, 4, 5]), "seed": rng.randrange(0, 2 ** 31 - 1),
+            sd = rng.choice([rng.randrange(0, 2 ** 31 - 1), rng.randrange(0, 2 ** 31 - 1), rng.randrange(2 ** 32, 2 ** 34), rng.randrange(2 ** 63, 2 ** 64), 2 ** 32 + rng.randrange(6)])
+            return {"protocol": rng.choice([-1, -1, 0, 1, 2, 3, 4, 5]), "seed": sd if sd < 2 ** 31 else -2, "seedl": seed_limbs(sd),
                     "min": rng.choice([60, 5, 30, 0]), "max": rng.choice([300, 20, 3, 40]),
                     "muts": mut_choices[i % len(mut_choices)], "rate1000": rng.choice([100, 0, 1000, 370, 2500]),
                     "unsafe": rng.choice([0, 0, 1]), "ext": rng.choice([0, 1]), "buf": rng.choice([0, 1])}
@@ -478,7 +485,7 @@ def front_stage(tier_, key):
                                      got=got, lib=[lib[c["id"]]] * c["n"]))
                     shutil.rmtree(od, ignore_errors=True)
             else:   # GitHub-action wrapper
-                env = {"PATH": os.path.dirname(exe) + ":" + os.environ.get("PATH", ""), "INPUT_SEED": str(o["seed"]),
+                env = {"PATH": os.path.dirname(exe) + ":" + os.environ.get("PATH", ""), "INPUT_SEED": str(real_seed(o)),
                        "INPUT_MIN_OPCODES": str(o["min"]), "INPUT_MAX_OPCODES": str(o["max"]),
                        "INPUT_MUTATION_RATE": "%.3f" % (o["rate1000"] / 1000.0)}
                 if o["protocol"] >= 0: env["INPUT_PROTOCOL"] = str(o["protocol"])
